@@ -80,6 +80,25 @@ type cframe struct {
 
 var opNameRe = regexp.MustCompile(`Op(\d+)`)
 
+// gate is a handler extension that rejects operations by a marker in the query text: "RejP" in
+// MutateOperationParameters, "RejC" in MutateOperationContext (C03 over the websocket transport).
+type gate struct{}
+
+func (gate) ExtensionName() string                          { return "SimGate" }
+func (gate) Validate(schema graphql.ExecutableSchema) error { return nil }
+func (gate) MutateOperationParameters(ctx context.Context, p *graphql.RawParams) *gqlerror.Error {
+	if strings.Contains(p.Query, "RejP") {
+		return gqlerror.Errorf("X:rejected by parameter gate")
+	}
+	return nil
+}
+func (gate) MutateOperationContext(ctx context.Context, rc *graphql.OperationContext) *gqlerror.Error {
+	if strings.Contains(rc.RawQuery, "RejC") {
+		return gqlerror.Errorf("X:rejected by context gate")
+	}
+	return nil
+}
+
 var hookOnce sync.Once
 var gnamesCur atomic.Value // *sync.Map of the running session
 
@@ -121,7 +140,7 @@ func Run(rc *core.RunCtx) {
 	protocol := rc.Property != "C05" && rc.Property != "C07"
 	// C07 = every result carries the content of its own operation (no leak between operations
 	// sharing the connection); also part of C11's "receives its results"
-	content := rc.Property == "C07" || rc.Property == "C11"
+	content := rc.Property == "C07" || rc.Property == "C11" || rc.Property == "C03"
 
 	transportWS := t.Choose(2, "proto") == 1
 	proto := "graphql-ws"
@@ -165,6 +184,7 @@ func Run(rc *core.RunCtx) {
 	}
 	srv := handler.New(u.ES)
 	srv.AddTransport(ws)
+	srv.Use(gate{})
 	srv.SetRecoverFunc(func(ctx context.Context, err any) error {
 		panicsRecovered.Add(1)
 		return fmt.Errorf("recovered:%v", err)
@@ -187,6 +207,9 @@ func Run(rc *core.RunCtx) {
 	u.OnCall = func(ctx context.Context, kind, path string) {
 		if role, gid := core.GoroutineRoleID(); role == "subscribe" {
 			gnames.Store(gid, u.KeyPrefix(ctx))
+		}
+		if oc := graphql.GetOperationContext(ctx); oc != nil && (strings.Contains(oc.RawQuery, "RejP") || strings.Contains(oc.RawQuery, "RejC")) {
+			flag("executed-despite-rejection", "a %s call at %q ran for an operation that an extension rejected (%s)", kind, path, clip(oc.RawQuery))
 		}
 		if !initAccepted.Load() {
 			flag("executed-before-init", "a %s call at %q ran before the connection was initialised", kind, path)
@@ -554,7 +577,13 @@ func Run(rc *core.RunCtx) {
 			o := &opState{id: id, startSeq: seq.Add(1), wantFrame: initSent}
 			var query string
 			var payloadExtra map[string]any
-			switch t.Choose(13, "opkind") {
+			switch t.Choose(15, "opkind") {
+			case 13:
+				o.kind = "rejected-by-parameter-gate"
+				query = fmt.Sprintf("query Op%s_RejP { hello me { id } }", id)
+			case 14:
+				o.kind = "rejected-by-context-gate"
+				query = fmt.Sprintf("query Op%s_RejC { hello me { id } }", id)
 			case 10, 11:
 				// the operation's own variables show in its result
 				o.kind = "query-vars"
@@ -834,6 +863,14 @@ func Run(rc *core.RunCtx) {
 			}
 			switch o.kind {
 			case "query", "mutation", "query-vars", "query-named":
+			case "rejected-by-parameter-gate", "rejected-by-context-gate":
+				// answered with errors only
+				p := execsim.ParseBody(string(f.Payload))
+				if p.JSONErr != "" || (p.Data != nil && !p.Data.IsNull()) || len(p.Errors) == 0 {
+					rc.Fail("rejected-request-has-data", "websocket", "operation %s (%s) was answered with %s\n%s", o.id, o.kind, clip(string(f.Payload)), desc())
+					return
+				}
+				continue
 			default:
 				continue
 			}
